@@ -55,6 +55,14 @@ pub fn sample(point: &str) {
     s.lines.push(l);
 }
 
+/// is this instance the original or a clone?  (`no_verify_in_drop` refuses clones)
+pub fn originality(u: unimock::Unimock) -> &'static str {
+    match std::panic::catch_unwind(std::panic::AssertUnwindSafe(move || drop(u.no_verify_in_drop()))) {
+        Ok(()) => "original",
+        Err(_) => "clone",
+    }
+}
+
 /// where the mock instance behind a receiver value lives
 pub trait Addr {
     fn addr(&self) -> usize;
